@@ -519,6 +519,8 @@ func C08(c *core.Ctx) {
 						_ = x
 					case *ssa.Const:
 						empties = true
+					case *ssa.Call:
+						empties = isSlicesDelete(v)
 					}
 				}
 				if okS && core.IsNilConst(v2) {
